@@ -36,6 +36,19 @@ its downstream cell (if it has one other than itself) -/
 def upstreamSumFixed (ds : Array Nat) (data : Array Int) (nodata : Int) (j : Nat) : Bool :=
   data[j]! != nodata && (ds[j]! == j || ds[j]! == ds.size || data[ds[j]!]! != nodata)
 
+/-- the loop overwrites `arr_sum[j]` with nodata at step `j`: `j` has a downstream cell other than
+itself and one of the two cells is empty -/
+def upsumFlagged (ds : Array Nat) (data : Array Int) (nodata : Int) (j : Nat) : Bool :=
+  ds[j]! != ds.size && ds[j]! != j && (data[j]! == nodata || data[ds[j]!]! == nodata)
+
+/-- what `upstream_sum` returns on its FULL domain (fields with missing values included): additions
+reach `j` from its inflow cells holding a value if `j` holds one; if `j` is flagged, the additions made
+before step `j` are overwritten with nodata and the later ones (inflow index > j) are added to nodata -/
+def upstreamSumExact (ds : Array Nat) (data : Array Int) (nodata : Int) (j : Nat) : Int :=
+  (if upsumFlagged ds data nodata j then nodata else 0) +
+  (((inflows ds j).filter fun i => data[i]! != nodata && data[j]! != nodata &&
+      (!upsumFlagged ds data nodata j || decide (j < i))).map fun i => data[i]!).sum
+
 /-! ### `core.fillnodata_downstream` (with the `filled` array) as an instance of the generic
 up-to-downstream sweep; the state of a cell is the pair `(data_out[i], filled[i])` -/
 
@@ -283,5 +296,50 @@ def floodSpec (ds : Array Nat) (P : FpParams) (i : Nat) : Int :=
   match walkFirst ds (isStream P) (ds.size + 1) i with
   | none => -2
   | some s => if isStream P s && floodWalk ds P s (ds.size + 1) i then 1 else 0
+
+/-! ### `streams.smooth_rivlen` (exact rationals; `Flwdir.smooth_rivlen` passes no stream order)
+
+`n = max_window // 2`; for every cell below `min_rivlen` the window `idxs[n-i : n+i+1]` is grown for
+`i = 1 .. n-1` (sic: the half-width `n` itself is never tried) while remembering the window with the
+largest mean of the CURRENT values; the loop stops as soon as that mean exceeds `min_rivlen`; the
+remembered window is then overwritten with its mean. -/
+
+/-- `idxs[n-i : n+i+1]` without the empty slots: up to `i` cells up the main stem, the cell, up to `i`
+cells downstream (the slots of `_window` are filled contiguously from the centre) -/
+def rivSlice (ds usMain : Array Nat) (n i idx0 : Nat) : List Nat :=
+  ((upList ds usMain n idx0).take i).reverse ++ [idx0] ++ (downList ds none 0 n idx0).take i
+
+def meanAt (a : Array Rat) (idxs : List Nat) : Rat :=
+  (idxs.map fun k => a[k]!).sum / (idxs.length : Rat)
+
+/-- one pass of `for i in range(1, n)` from half-width `i`, `cnt` iterations left;
+state = (`len_avg1`, `idxs1`) -/
+def smoothInner (ds usMain : Array Nat) (a : Array Rat) (nd minLen : Rat) (n idx0 : Nat) :
+    Nat → Nat → Rat × List Nat → Rat × List Nat
+  | 0, _, st => st
+  | cnt+1, i, st =>
+    let idxs0 := (rivSlice ds usMain n i idx0).filter fun k => a[k]! != nd
+    let avg0 := meanAt a idxs0
+    let st' := if avg0 > st.1 then (avg0, idxs0) else st
+    if st'.1 > minLen then st' else smoothInner ds usMain a nd minLen n idx0 cnt (i+1) st'
+
+/-- `rivlen_out[idxs1] = len_avg1` -/
+def setAll (a : Array Rat) (idxs : List Nat) (v : Rat) : Array Rat :=
+  idxs.foldl (fun a k => a.setIfInBounds k v) a
+
+/-- body of the outer loop; the flag records that every value written so far is an integer (then
+the implementation's float arithmetic is exact on integer input) -/
+def smoothStep (ds usMain : Array Nat) (nd minLen : Rat) (n : Nat) (st : Array Rat × Bool) (idx0 : Nat) :
+    Array Rat × Bool :=
+  let a := st.1
+  let len0 := a[idx0]!
+  if len0 != nd && decide (len0 < minLen) then
+    let r := smoothInner ds usMain a nd minLen n idx0 (n - 1) 1 (len0, [])
+    if r.1 > len0 then (setAll a r.2 r.1, st.2 && r.1.den == 1) else st
+  else st
+
+def smoothRivlenModel (ds usMain : Array Nat) (rivlen : Array Rat) (minLen : Rat) (maxWindow : Nat)
+    (nd : Rat) : Array Rat × Bool :=
+  (List.range rivlen.size).foldl (smoothStep ds usMain nd minLen (maxWindow / 2)) (rivlen, true)
 
 end Pf
